@@ -82,6 +82,17 @@ var c10Events = []c10Event{
 		return []*rm.Value{st}
 	}},
 	{"import(sh,2,max_id:-2)+[l]", func() []*rm.Value { return []*rm.Value{c10LST(c10Import(rm.IntV(-2)), "l")} }},
+	{"LST[oc] with open content named $0 and $99", func() []*rm.Value {
+		st := c10LST(nil, "oc")
+		st.Kids = append([]*rm.Value{rm.IntV(1).FS(rm.NoText(0))}, st.Kids...)
+		return []*rm.Value{st}
+	}},
+	{"import(sh,2,max_id:2)+[l] with open content named $0 in the import", func() []*rm.Value {
+		st := c10LST(c10Import(rm.IntV(2)), "l")
+		imp := st.Kids[0].Kids[0]
+		imp.Kids = append([]*rm.Value{rm.StrV("x").FS(rm.NoText(0))}, imp.Kids...)
+		return []*rm.Value{st}
+	}},
 	{"append-quoted", func() []*rm.Value {
 		s := rm.SymV("$ion_symbol_table")
 		s.Sym.Quoted = true
@@ -279,7 +290,7 @@ func init() {
 	mc.Register(&mc.Check{
 		ID:    "C10",
 		Title: "Symbols in a stream resolve against the symbol table in force at that point",
-		Rule: "EVERY event sequence of length <= L over 24 events {version marker; replacing LST [s1,s2] / [s3]; LST importing sh v2 with max_id 0 / 1 / 2 / 4 / absent / null / -1 / -2 plus local l; LST importing sh v2 and declaring no local symbols (symbols:[] and no symbols field); an LST whose symbols list holds null.string and a non-string; appending LST (imports:$ion_symbol_table, bare and quoted); user value using SID n as field name, annotation and symbol value for n in {0,4,10,11,12,13,14}; structs annotated $ion_symbol_table nested in a list and a struct} x 5 catalogs {exact v2, none, newer v3 only, older v1 only, v1+v3} x {binary, text}, read by the real Reader with that catalog. " +
+		Rule: "EVERY event sequence of length <= L over 26 events {version marker; replacing LST [s1,s2] / [s3]; LST importing sh v2 with max_id 0 / 1 / 2 / 4 / absent / null / -1 / -2 plus local l; LST importing sh v2 and declaring no local symbols (symbols:[] and no symbols field); an LST whose symbols list holds null.string and a non-string; appending LST (imports:$ion_symbol_table, bare and quoted); tables carrying open content whose field name has no text ($0) in the table struct and in an import struct; user value using SID n as field name, annotation and symbol value for n in {0,4,10,11,12,13,14}; structs annotated $ion_symbol_table nested in a list and a struct} x 5 catalogs {exact v2, none, newer v3 only, older v1 only, v1+v3} x {binary, text}, read by the real Reader with that catalog. " +
 			"Oracle: the reference decoder/parser + refsym context machine over the same bytes: every user value's symbols by text / unknown-text+SID, SymbolTable().MaxID() at every top-level value, no table struct surfacing, and a stream error exactly when the reference finds an undefined SID or an import without usable max_id and no exact match (values before the error compared). " +
 			"non-trivial = all values and MaxIDs compared; distinct = distinct (catalog, values, MaxIDs, error) digests",
 		Bounds:      map[string]string{"quick": "L=4", "thorough": "L=5"},
